@@ -1,11 +1,13 @@
 #!/usr/bin/env python3
-"""keep_seed.py <ID> <k> : copy a confirmed seeded change from /tmp/wt/<ID>-out into /verif/seeded/<ID>-<k>/"""
+"""keep_seed.py <ID> <k> [<srcdir> <newk>] : copy a confirmed seeded change from /tmp/wt/<ID>-out into /verif/seeded/<ID>-<k>/"""
 import json, os, shutil, sys, re
 pid, k = sys.argv[1], sys.argv[2]
-src = "/tmp/wt/%s-out" % pid
+# optional: <srcdir> <newk> (round-2 seeds live in /tmp/wt/<ID>b-out and are kept as <ID>-<newk>)
+src = sys.argv[3] if len(sys.argv) > 3 else "/tmp/wt/%s-out" % pid
+newk = sys.argv[4] if len(sys.argv) > 4 else k
 conf = open(os.path.join(src, "confirm%s.txt" % k)).read().strip()
 assert conf == "demo_clean=pass demo_mutated=fail suite_mutated=pass", conf
-dst = "/verif/seeded/%s-%s" % (pid, k)
+dst = "/verif/seeded/%s-%s" % (pid, newk)
 os.makedirs(dst, exist_ok=True)
 shutil.copy(os.path.join(src, "patch%s.diff" % k), os.path.join(dst, "patch.diff"))
 shutil.copy(os.path.join(src, "demo%s.rs" % k), os.path.join(dst, "demo.rs"))
@@ -13,7 +15,7 @@ notes = open(os.path.join(src, "notes%s.md" % k)).read()
 shutil.copy(os.path.join(src, "notes%s.md" % k), os.path.join(dst, "notes.md"))
 files = re.findall(r"^\+\+\+ b/(\S+)", open(os.path.join(dst, "patch.diff")).read(), re.M)
 meta = {
-    "id": "%s-%s" % (pid, k),
+    "id": "%s-%s" % (pid, newk),
     "breaks_property": pid,
     "files_changed": files,
     "origin": "fresh sub-agent given only the property text and its own scratch worktree (nothing from /verif)",
